@@ -357,6 +357,19 @@ func c07Check(cs c07Case) (kind, detail string) {
 	if berr != nil || bpan != nil {
 		return "skip", "identity fails"
 	}
+	// the identity itself must keep every comment, in order (otherwise the comparison has no baseline; that loss or displacement is C05's subject)
+	comments := func(t string) string {
+		var l []string
+		for _, ln := range strings.Split(t, "\n") {
+			if i := strings.Index(ln, "# "); i >= 0 {
+				l = append(l, strings.TrimSpace(ln[i:]))
+			}
+		}
+		return strings.Join(l, "\n")
+	}
+	if comments(base) != comments(text) {
+		return "baseline-lossy", ""
+	}
 	upd, uerr, upan := c07Run1(text, expr)
 	if upan != nil {
 		return "panic", fmt.Sprintf("%s: %v", expr, upan)
@@ -521,10 +534,10 @@ func c07Check(cs c07Case) (kind, detail string) {
 					k := n.Content[i]
 					sub := path + "/" + k.Value
 					was := mute
+					cm("C", k.HeadComment) // stands in front of the (new) key: not part of the copy
 					if cs.Update == "copy-then-edit" && !isBase && inT(sub) {
 						mute = true
 					}
-					cm("C", k.HeadComment)
 					node(k, sub+"#key")
 					cm("L", k.LineComment)
 					walk(n.Content[i+1], sub)
@@ -546,6 +559,31 @@ func c07Check(cs c07Case) (kind, detail string) {
 		walk(root, "")
 		return out
 	}
+	// the independent reader itself drops comments in some stacked layouts: a text it cannot read completely is no evidence
+	readerComplete := func(text string, root *yaml.Node) bool {
+		var all []string
+		var w func(n *yaml.Node)
+		w = func(n *yaml.Node) {
+			all = append(all, n.HeadComment, n.LineComment, n.FootComment)
+			for _, c := range n.Content {
+				w(c)
+			}
+		}
+		w(root)
+		joined := strings.Join(all, "\n")
+		for _, ln := range strings.Split(text, "\n") {
+			if i := strings.Index(ln, "# "); i >= 0 {
+				cm := strings.TrimSpace(ln[i:])
+				if strings.Count(joined, cm) < strings.Count(text, cm) {
+					return false
+				}
+			}
+		}
+		return true
+	}
+	if !readerComplete(base, bn[0]) || len(un) == 1 && !readerComplete(upd, un[0]) {
+		return "reader-incomplete", ""
+	}
 	bs, us := stream(bn[0], true), stream(un[0], false)
 	if strings.Join(bs, "\n") != strings.Join(us, "\n") {
 		// first difference
@@ -565,7 +603,7 @@ func c07Check(cs c07Case) (kind, detail string) {
 		case strings.HasPrefix(x, "C|") || strings.HasPrefix(x, "L|") || strings.HasPrefix(y, "C|") || strings.HasPrefix(y, "L|"):
 			kind = "comment"
 		}
-		return kind, fmt.Sprintf("`%s`: outside the target the two outputs differ; first difference at token %d\n  `.`:    %s\n  update: %s\nupdate prints:\n%s--- `.` prints:\n%s", expr, i, x, y, upd, base)
+		return kind, fmt.Sprintf("`%s`: outside the target the two outputs differ; first difference at token %d\n  `.`:    %s\n  update: %s\nupdate prints:\n%s--- `.` prints:\n%s--- token streams outside the target (`.` / update):\n%s\n/\n%s", expr, i, x, y, upd, base, strings.Join(bs, " ; "), strings.Join(us, " ; "))
 	}
 	// document-level leading comment and separator
 	if strings.HasPrefix(base, "# leading comment\n---\n") != strings.HasPrefix(upd, "# leading comment\n---\n") {
@@ -628,6 +666,14 @@ func c07Run(c *fw.Ctx) error {
 				if kind == "skip" {
 					continue
 				}
+				if kind == "reader-incomplete" {
+					c.Count("skipped_independent_reader_drops_a_comment", 1)
+					continue
+				}
+				if kind == "baseline-lossy" {
+					c.Count("skipped_identity_loses_or_moves_a_comment", 1)
+					continue
+				}
 				c.Eval(1)
 				c.Validated(1)
 				key := fmt.Sprintf("%s|%v|%s|%s", shape, tg, k, deco)
@@ -687,7 +733,7 @@ func c07Replay(raw json.RawMessage) (bool, string, error) {
 		return false, "", err
 	}
 	kind, detail := c07Check(cs)
-	if kind == "" || kind == "skip" {
+	if kind == "" || kind == "skip" || kind == "baseline-lossy" || kind == "reader-incomplete" {
 		return false, "", nil
 	}
 	return true, kind + ": " + detail, nil
